@@ -676,6 +676,21 @@ fn check_graph(run: &Run, cnt: &Cnt, family: &str, g: &Graph, extra: &str) {
         json!({"engine":"dmn","xml":xml,"invocable":invocable,"ctx":pairs.iter().map(|(k,v)| json!([k,v])).collect::<Vec<_>>(),"expected":exp}),
       );
     }
+    // an entry named like the invoked element itself: the element is not one of its own requirements
+    if !pairs.iter().any(|(k, _)| k == invocable) {
+      let mut own = pairs.to_vec();
+      own.push((invocable.to_string(), "n".to_string()));
+      let got_own = show_value(&me.evaluate_invocable(invocable, &ctx_of(&own)));
+      cnt.evals.fetch_add(1, Ordering::Relaxed);
+      cnt.noise.fetch_add(1, Ordering::Relaxed);
+      if got_own != got {
+        run.violation(
+          &format!("{}:noise:{}:{}{}:entry-named-like-the-invoked-element", family, invoked_kind, g.variant(), extra),
+          &format!("{} `{}`: an entry named like the element itself changes the result from {} (with {}) to {} (with {})", invoked_kind, invocable, got, ctx_text(pairs), got_own, ctx_text(&own)),
+          json!({"engine":"dmn","xml":xml,"invocable":invocable,"ctx":own.iter().map(|(k,v)| json!([k,v])).collect::<Vec<_>>(),"expected":got}),
+        );
+      }
+    }
     // noise: entries outside the requirement closure
     let mut noisy: Vec<(String, String)> = pairs.to_vec();
     for n in all_names.iter().map(|s| s.as_str()).chain(NOISE_NAMES.iter().cloned()) {
